@@ -1,20 +1,28 @@
-/* C17 - bounded drive over the REAL translated bodies (DESIGN 3.8): one shared state, up to 3 handles, up to 2 function
- * awaiters, a nondeterministic sequence of DRIVE_STEPS operations
- *     copy-construct / copy-assign / destroy a handle, subscribe an awaiter through a handle, resolve (value or broken promise)
- * in ANY order (single thread), then whatever is still outstanding is finished (resolve, drop every handle).
- * Real code: shared_future members, the libstdc++ shared_ptr wrappers above the control-block model, future<int>/promise<int>
- * (get_promise, claim, set, resolve), awaiter::resume_chain_set_ready / resume_chain_lk / resume, the tracer lambda.
- * Abstract: the control block (lib/model_sharedptr_cb.c), awaiter::subscribe_check_ready (sequential reading, sf_spec.h).
- * Checked: nothing is released while the future is pending - even with every handle gone; afterwards the state is destroyed and
- * freed exactly once (gh_allocs == gh_frees, one dispose, one release; CBMC's use-after-free / double-free checks are on);
- * every accepted awaiter is resumed exactly once and never before resolution; every live copy sees ready() and the SAME
- * value object holding the resolved value. */
+/* C17 - bounded drive over the REAL translated bodies (DESIGN 3.8).
+ * One shared state, three handle slots, two function awaiters.  units.py enumerates EVERY order of up to DRIVE_LEN operations
+ * over the alphabet below that contain the resolution (single thread) and hands them to this harness as a constant table; the
+ * harness runs each script on fresh objects and then completes it (reads through every copy, destroys every handle).
+ *     CC copy-construct a new handle        CA copy-assign into an empty handle      DD destroy a handle
+ *     DA drop by assigning an empty handle  AS self-assignment                       AP assignment between two owners
+ *     SU subscribe the next awaiter         RV resolve with a value                  BR break the promise (destroy it)
+ * (handles are interchangeable for the shared state, so each operation picks canonical slots: lowest owner / lowest empty /
+ *  highest owner).  Enumeration instead of nondeterministic choice: a symbolic order makes CBMC reason at byte level about
+ *  every pointer and needs > 16 GB already for 3 steps; concrete orders are executed by constant propagation.
+ * Real code: the shared_future members, the libstdc++ shared_ptr wrappers above the control-block model, future<int> /
+ * promise<int> (get_promise, move, claim, set, resolve, destructor), awaiter::resume_chain_set_ready / resume_chain_lk /
+ * resume, the tracer lambda, future::value / ready.
+ * Abstract: the control block (lib/model_sharedptr_cb.c), awaiter::subscribe_check_ready (sequential reading, sf_spec.h),
+ * suspend_point::operator<< / suspend_now (checked to be used on empty suspend points only - no awaiter here is a coroutine).
+ * Checked per script: nothing is destroyed or freed while the future is pending - even with every handle gone; after
+ * resolution the state is released exactly when the last handle goes, destroyed once, freed once (allocations == frees; CBMC's
+ * use-after-free / double-free checks are on); every accepted awaiter is resumed exactly once and never before resolution; a
+ * late awaiter is refused; every live copy is ready and reads the SAME value object holding the resolved value (symbolic). */
 #ifdef CV_HAS_drv_resolve
-#ifndef DRIVE_STEPS
-#define DRIVE_STEPS 4
-#endif
 #define NH 3
 #define NA 2
+enum { CC, CA, DD, DA, AS, AP, SU, RV, BR, END };
+static const signed char SCRIPTS[][DRIVE_LEN + 1] = { DRIVE_SCRIPTS };
+#define N_SCRIPTS ((int)(sizeof(SCRIPTS) / sizeof(SCRIPTS[0])))
 /* environment functor of shared_future(Fn(promise)): keeps the promise (moves it out with the real promise(promise&&)) */
 PROMISE g_promise; int g_have_promise;
 #ifdef CV_HAS_env_promise_fn
@@ -23,60 +31,78 @@ void env_promise_fn(PFN *fn, PROMISE *p) { drv_promise_move(&g_promise, p); g_ha
 #ifdef CV_HAS_sp_suspend_now
 void sp_suspend_now(SPV *sp) { __CPROVER_assert(0, "drive: no coroutine handle is ever made ready here (all awaiters are function awaiters)"); }
 #endif
-int nondet_int(void);
-void h_drive(void)
+#ifdef CV_HAS_sp_merge
+SPV *sp_merge(SPV *this_, SPV *other) {   /* suspend_point::operator<<(suspend_point&&): merging an EMPTY suspend point is a no-op (checked) */
+  __CPROVER_assert(other->_count_flag == 0, "drive: only empty suspend points are merged (no awaiter here is a coroutine)");
+  return this_; }
+#endif
+unsigned gh_scripts_done;
+static int lowest(const int *holds, int want) { for (int i = 0; i < NH; i++) if (holds[i] == want) return i; return -1; }
+static int highest(const int *holds, int want) { for (int i = NH - 1; i >= 0; i--) if (holds[i] == want) return i; return -1; }
+
+static void run_script(const signed char *script, cv_i32 val)
 {
-  SF h[NH]; int live[NH]; CAW aw[NA]; int sub[NA]; int accepted[NA];
-  int resolved = 0, with_value = 0, n_live = 0; cv_i32 val = nondet_unsigned();
-  unsigned allocs0 = gh_allocs, frees0 = gh_frees;
-  for (int i = 0; i < NH; i++) live[i] = 0;
-  for (int k = 0; k < NA; k++) { drv_awaiter_init(&aw[k]); sub[k] = 0; accepted[k] = 0; }
-  /* ---- creation */
+  SF h[NH]; CAW aw[NA]; int holds[NH]; int accepted[NA]; int n_sub = 0, promise_alive = 1;
+  int resolved = 0, with_value = 0, n_live = 0;
+  unsigned allocs0 = gh_allocs, frees0 = gh_frees, made0 = gh_sp_made, disp0 = gh_sp_disposed, rel0 = gh_sp_released;
+  for (int k = 0; k < NA; k++) { drv_awaiter_init(&aw[k]); accepted[k] = 0; }
+  /* ---- creation: slot 0 gets the state, the other slots are default-constructed (empty) handles */
 #if DRIVE_START == 1          /* shared_future f(fn) where fn receives (and keeps) the promise */
-  { PFN fn; drv_ctor_promise(&h[0], &fn); __CPROVER_assert(g_have_promise == 1, "drive: the user function received the promise"); }
+  { PFN fn; g_have_promise = 0; drv_ctor_promise(&h[0], &fn); __CPROVER_assert(g_have_promise == 1, "drive: the user function received the promise"); }
 #else                         /* shared_future f; auto p = f.get_promise();   (late initialisation) */
   drv_default(&h[0]); drv_get_promise(&h[0], &g_promise);
 #endif
-  live[0] = 1; n_live = 1;
+  holds[0] = 1; n_live = 1;
+  for (int i = 1; i < NH; i++) { drv_default(&h[i]); holds[i] = 0; }
   __CPROVER_assert(cv_exc_pending == 0, "drive: no exception from creation");
-  __CPROVER_assert(gh_allocs == allocs0 + 1 && gh_sp_made == 1, "drive: the shared state is one allocation");
-  __CPROVER_assert(!drv_ready(&h[0]), "drive: a fresh shared_future with an outstanding promise is not ready");
-  /* ---- any order of operations */
-  for (int step = 0; step < DRIVE_STEPS; step++) {
-    int op = nondet_int(), i = nondet_int(), j = nondet_int();
-    __CPROVER_assume(0 <= op && op <= 5 && 0 <= i && i < NH && 0 <= j && j < NH);
-    if (op == 0 && live[i] && !live[j]) { drv_copy_ctor(&h[j], &h[i]); live[j] = 1; n_live++; }
-    else if (op == 1 && live[i] && live[j]) { drv_copy_assign(&h[j], &h[i]); }
-    else if (op == 2 && live[i]) { drv_dtor(&h[i]); live[i] = 0; n_live--; }
-    else if (op == 3 && live[i] && j < NA && !sub[j]) { sub[j] = 1; accepted[j] = drv_subscribe(&h[i], &aw[j]) ? 1 : 0;
-        __CPROVER_assert(accepted[j] == (resolved ? 0 : 1), "drive: an awaiter is accepted exactly while the future is pending"); }
-    else if (op == 4 && !resolved) { cv_i1 won = drv_resolve(&g_promise, val); resolved = 1; with_value = 1; __CPROVER_assert(won == 1, "drive: the only promise wins"); }
-    else if (op == 5 && !resolved) { drv_drop_promise(&g_promise); resolved = 1; }
+  __CPROVER_assert(gh_allocs == allocs0 + 1 && gh_sp_made == made0 + 1, "drive: the shared state is one allocation");
+  __CPROVER_assert(!drv_ready(&h[0]) && !drv_ready(&h[1]), "drive: neither a fresh shared_future with an outstanding promise nor an empty one is ready");
+  /* ---- the script */
+  for (int step = 0; step < DRIVE_LEN && script[step] != END; step++) {
+    int op = script[step], lo = lowest(holds, 1), hi = highest(holds, 1), e = lowest(holds, 0);
+    __CPROVER_assert(op == RV || op == BR || lo >= 0 || op == CC || op == CA, "drive: script well-formed");
+    if (op == CC)      { drv_dtor(&h[e]); drv_copy_ctor(&h[e], &h[lo]); holds[e] = 1; n_live++; }
+    else if (op == CA) { drv_copy_assign(&h[e], &h[lo]); holds[e] = 1; n_live++; }
+    else if (op == DD) { drv_dtor(&h[hi]); drv_default(&h[hi]); holds[hi] = 0; n_live--; }
+    else if (op == DA) { drv_copy_assign(&h[hi], &h[e]); holds[hi] = 0; n_live--; }
+    else if (op == AS) { drv_copy_assign(&h[lo], &h[lo]); }
+    else if (op == AP) { drv_copy_assign(&h[hi], &h[lo]); }
+    else if (op == SU) { accepted[n_sub] = drv_subscribe(&h[lo], &aw[n_sub]) ? 1 : 0;
+                         __CPROVER_assert(accepted[n_sub] == (resolved ? 0 : 1), "drive: an awaiter is accepted exactly while the future is pending"); n_sub++; }
+    else if (op == RV) { cv_i1 won = drv_resolve(&g_promise, val); resolved = 1; with_value = 1; __CPROVER_assert(won == 1, "drive: the only promise wins"); }
+    else if (op == BR) { drv_drop_promise(&g_promise); promise_alive = 0; resolved = 1; }
     __CPROVER_assert(cv_exc_pending == 0, "drive: no exception escapes an operation");
     if (!resolved) {
-      __CPROVER_assert(gh_frees == frees0 && gh_sp_disposed == 0 && gh_sp_released == 0, "drive: nothing is destroyed or freed while the future is pending (even with no handle left)");
+      __CPROVER_assert(gh_frees == frees0 && gh_sp_disposed == disp0 && gh_sp_released == rel0, "drive: nothing is destroyed or freed while the future is pending (even with no handle left)");
       for (int k = 0; k < NA; k++) __CPROVER_assert(aw[k].hits == 0, "drive: no awaiter is resumed before resolution");
-    }
+    } else
+      __CPROVER_assert((n_live == 0) == (gh_sp_released == rel0 + 1) && gh_sp_released <= rel0 + 1, "drive: after resolution the state is released exactly when the last handle has gone");
   }
-  /* ---- finish: resolve if still pending */
-  if (!resolved) { if (nondet_bool()) { drv_resolve(&g_promise, val); with_value = 1; } else drv_drop_promise(&g_promise); resolved = 1; }
+  /* ---- every script contains its resolution (the harness stays free of nondeterministic choices: see header) */
+  __CPROVER_assert(resolved, "drive: script well-formed (contains RV or BR)");
   __CPROVER_assert(cv_exc_pending == 0, "drive: no exception from resolution");
   for (int k = 0; k < NA; k++) __CPROVER_assert(aw[k].hits == (accepted[k] ? 1 : 0), "drive: every accepted awaiter has been resumed exactly once");
-  __CPROVER_assert((n_live == 0) == (gh_sp_released == 1), "drive: after resolution the state is gone iff no handle is left");
+  __CPROVER_assert((n_live == 0) == (gh_sp_released == rel0 + 1), "drive: after resolution the state is gone iff no handle is left");
   /* every live copy observes the same single result */
   { cv_i32 *first = 0;
-    for (int i = 0; i < NH; i++) if (live[i]) {
+    for (int i = 0; i < NH; i++) if (holds[i]) {
       __CPROVER_assert(drv_ready(&h[i]), "drive: every copy is ready after resolution");
       if (with_value) { cv_i32 *v = drv_value(&h[i]); __CPROVER_assert(cv_exc_pending == 0 && *v == val, "drive: every copy reads the resolved value");
                         if (first == 0) first = v; __CPROVER_assert(v == first, "drive: all copies read the same value object"); } } }
-  /* ---- drop every remaining handle, in any order */
-  for (int r = 0; r < NH; r++) { int i = nondet_int(); __CPROVER_assume(0 <= i && i < NH);
-    for (int t = 0; t < NH; t++) { int x = (i + t) % NH; if (live[x]) { drv_dtor(&h[x]); live[x] = 0; n_live--; break; } } }
+  /* ---- destroy every handle */
+  for (int i = 0; i < NH; i++) { drv_dtor(&h[i]); n_live -= holds[i]; holds[i] = 0; }
   __CPROVER_assert(n_live == 0, "drive: all handles dropped");
-  drv_drop_promise(&g_promise);                          /* a used promise is inert */
-  __CPROVER_assert(gh_sp_disposed == 1 && gh_sp_released == 1, "drive: the shared state is destroyed exactly once and released exactly once");
+  if (promise_alive) drv_drop_promise(&g_promise);       /* destroying the used promise changes nothing */
+  __CPROVER_assert(gh_sp_disposed == disp0 + 1 && gh_sp_released == rel0 + 1, "drive: the shared state is destroyed exactly once and released exactly once");
   __CPROVER_assert(gh_allocs - allocs0 == gh_frees - frees0, "drive: no leak (allocations == frees)");
   for (int k = 0; k < NA; k++) __CPROVER_assert(aw[k].hits == (accepted[k] ? 1 : 0), "drive: no awaiter is resumed a second time");
+  gh_scripts_done++;
+}
+void h_drive(void)
+{
+  cv_i32 val = nondet_unsigned();
+  for (int s = 0; s < N_SCRIPTS; s++) run_script(SCRIPTS[s], val);
+  __CPROVER_assert(gh_scripts_done == N_SCRIPTS, "drive: every script ran to its end");
   __CPROVER_assert(0, "SENTINEL reachable: end of the drive");
 }
 #endif
